@@ -746,6 +746,95 @@ def rule_r11(prog, res):
                     'operations' % attr)
 
 
+# ------------------------------------------------------------------ R12
+def rule_r12(prog, res):
+    res.rule('R12', 'a WSDL build starts from empty element caches and files '
+             'each operation under the portType its binding looks it up in')
+    w = prog.cls('spyne.interface.wsdl.wsdl11:Wsdl11')
+    b = w.methods.get('build_interface_document')
+    if b is None:
+        raise AnalysisError('Wsdl11.build_interface_document', 'not found')
+    caches = {}
+    for nm, f in w.methods.items():
+        if not nm.startswith('_get_or_create'):
+            continue
+        for a in walk_no_defs(f.node):
+            if isinstance(a, ast.Assign):
+                for t in a.targets:
+                    if isinstance(t, ast.Subscript) and isinstance(
+                            t.value, ast.Attribute) and \
+                            unparse(t.value.value) == 'self':
+                        caches.setdefault(t.value.attr, f)
+    res.floor('R12', 'element caches filled by _get_or_create_*', len(caches),
+              2)
+    roots = [a.lineno for a in walk_no_defs(b.node) if isinstance(a, ast.Assign)
+             and any('self.root_elt' == unparse(t) for t in a.targets)]
+    if not roots:
+        raise AnalysisError('Wsdl11.build_interface_document',
+                            'assignment of self.root_elt not found')
+    for attr, f in sorted(caches.items()):
+        fresh = [a for a in walk_no_defs(b.node) if isinstance(a, ast.Assign)
+                 and any(unparse(t) == 'self.' + attr for t in a.targets) and
+                 (isinstance(a.value, ast.Dict) and not a.value.keys or
+                  isinstance(a.value, ast.Call) and call_name(a.value) in (
+                      'dict', 'odict', 'OrderedDict') and not a.value.args)
+                 and a.lineno < min(roots) and
+                 not guardspec.atoms_at(a, b.node)]
+        cleared = [c for c in calls_in(b.node) if isinstance(
+            c.func, ast.Attribute) and c.func.attr == 'clear' and
+            unparse(c.func.value) == 'self.' + attr and
+            c.lineno < min(roots)]
+        ok = bool(fresh or cleared)
+        res.ob('R12', b.where, 'self.%s (filled by %s) is %s before the new '
+               'root element is created' % (attr, f.name, 'reset' if ok else
+                                            'NOT reset'),
+               'ok' if ok else 'VIOLATED')
+        if not ok:
+            res.finding('R12', 'Wsdl11.build_interface_document|stale-cache|'
+                        '%s' % attr, b.where, 'self.%s keeps the elements of '
+                        'the previous document: on a second build %s finds '
+                        'them, attaches nothing to the new root, and the '
+                        'document comes out without those elements (building '
+                        'twice does not give the same bytes)' % (attr, f.name))
+    # operations are filed per method.port_type, as the bindings select them
+    a = w.methods.get('add_port_type')
+    bind = w.methods.get('add_bindings_for_methods')
+    selects = bind is not None and any(
+        isinstance(c, ast.Compare) and 'port_type' in unparse(c.left) and
+        isinstance(c.ops[0], ast.Eq) for c in ast.walk(bind.node))
+    loops = [l for l in walk_no_defs(a.node) if isinstance(l, ast.For) and
+             'public_methods' in unparse(l.iter)]
+    res.floor('R12', 'method loops in add_port_type', len(loops), 1)
+    loop = loops[0]
+    mvar = unparse(loop.target)
+    ops = [c for st in loop.body for c in ast.walk(st)
+           if isinstance(c, ast.Call) and call_name(c) == 'SubElement' and
+           len(c.args) >= 2 and 'operation' in unparse(c.args[1]) and
+           'cb_' not in unparse(c.args[0])]
+    res.floor('R12', 'operation elements created per method', len(ops), 1)
+    for c in ops:
+        parent = c.args[0]
+        srcs = [unparse(parent)]
+        if isinstance(parent, ast.Name):
+            srcs += [unparse(x.value) for st in loop.body
+                     for x in ast.walk(st) if isinstance(x, ast.Assign) and
+                     any(isinstance(t, ast.Name) and t.id == parent.id
+                         for t in x.targets)]
+        ok = (not selects) or any('%s.port_type' % mvar in s_ for s_ in srcs)
+        where = '%s:%d' % (a.module.relpath, c.lineno)
+        res.ob('R12', where, 'add_port_type: operation parent %s <- %s' % (
+            unparse(parent), srcs[1:] or '(bound outside the method loop)'),
+            'ok' if ok else 'VIOLATED')
+        if not ok:
+            res.finding('R12', 'Wsdl11.add_port_type|operation-port-type',
+                        where, 'the binding emitter lists under each binding '
+                        'the methods whose port_type equals its name, but '
+                        'add_port_type appends every operation to %s, which '
+                        'is bound outside the method loop (the portType '
+                        'created last): binding operations have no matching '
+                        'portType operation' % unparse(parent))
+
+
 def run(prog, res, tier):
     res.run_rule(rule_r1, prog, res, tier)
     res.run_rule(rule_r2, prog, res)
@@ -758,6 +847,7 @@ def run(prog, res, tier):
     res.run_rule(rule_r9, prog, res)
     res.run_rule(rule_r10, prog, res)
     res.run_rule(rule_r11, prog, res)
+    res.run_rule(rule_r12, prog, res)
 
 
 _S = 'spyne/interface/xml_schema/_base.py'
@@ -766,6 +856,23 @@ _I = 'spyne/interface/_base.py'
 _T = 'spyne/util/toposort.py'
 
 MUTANTS = [
+    Mutant('wsdl-caches-survive-build', 'R12', 'fire',
+           'spyne/interface/wsdl/wsdl11.py',
+           in_func('Wsdl11.build_interface_document',
+                   "        self.port_type_dict = {}\n", ""), 'stale-cache'),
+    Mutant('operations-in-last-port-type', 'R12', 'fire',
+           'spyne/interface/wsdl/wsdl11.py',
+           in_func('Wsdl11.add_port_type',
+                   "                if method.port_type is not None:\n"
+                   "                    port_type = self._get_or_create_port_"
+                   "type(method.port_type)\n", ""), 'operation-port-type'),
+    Mutant('wsdl-caches-cleared-in-place', 'R12', 'silent',
+           'spyne/interface/wsdl/wsdl11.py',
+           in_func('Wsdl11.build_interface_document',
+                   "        self.port_type_dict = {}\n        "
+                   "self.service_elt_dict = {}\n",
+                   "        self.port_type_dict.clear()\n        "
+                   "self.service_elt_dict.clear()\n"), None),
     Mutant('aux-flag-local-only', 'R11', 'fire', 'spyne/service.py',
            in_func('ServiceMeta.__init__',
                    "            else:\n                self.__has_aux_methods "
@@ -893,13 +1000,12 @@ MUTANTS = [
            in_func('Wsdl11.add_port_type',
                    "            if method.is_callback:\n"
                    "                operation = SubElement(cb_port_type, "
-                   "WSDL11(\"operation\"))\n            else:\n"
-                   "                operation = SubElement(port_type, WSDL11("
-                   "\"operation\"))\n",
+                   "WSDL11(\"operation\"))\n            else:\n",
                    "            operation = SubElement(port_type, WSDL11("
                    "\"operation\"))\n            if method.is_callback:\n"
                    "                operation = SubElement(cb_port_type, "
-                   "WSDL11(\"operation\"))\n"), 'operations-per-method'),
+                   "WSDL11(\"operation\"))\n            else:\n"),
+           'operations-per-method'),
     Mutant('probe-wrong-map', 'R4', 'fire', _I,
            in_func('Interface.get_namespace_prefix',
                    "while pref in self.nsmap:", "while pref in self.prefmap:"),
